@@ -38,12 +38,21 @@ def build(cfg, values=None):
     with ctx.shadow():
         p = ctx.new_panel(model, m, n)
         size = 3 * m * n
+        if cfg.get('laminate_offset'):
+            p.offset = ctx.V('d')    # laminate with an offset reference surface (A, B + d A, D + 2 d B + d^2 A)
         p.calc_k0(silent=True)      # public sequence: the laminate F used by calc_fint is set here
         p.nx, p.ny = ny + 2, nx + 1   # the numbers of integration points passed as ARGUMENTS must win over the attributes
         c = state(ctx, size, cfg.get('state', 'generic'))
         S = series_of(p, model)
         ops = E.donnell_ops('cpanel' if model == 'cpanel' else 'plate', r=p.r)
         F = p._verif_lam.ABD
+        if cfg.get('laminate_offset'):
+            base, d_ = F, p.offset
+            F = base.copy()
+            for i in range(3):
+                for j in range(3):
+                    F[i, 3 + j] = F[3 + j, i] = base[i, 3 + j] + d_ * base[i, j]
+                    F[3 + i, 3 + j] = base[3 + i, 3 + j] + 2 * d_ * base[i, 3 + j] + d_ * d_ * base[i, j]
         Fl = [[F[i, j] for j in range(6)] for i in range(6)]
         Ffun = lambda ix, iy: Fl
         Fn = None
@@ -147,6 +156,8 @@ def configs(tier, seed):
         out.append({'model': model, 'm': 1, 'n': 2, 'nx': 2, 'ny': 2, 'variant': 'kT', 'group': 'kT-jacobian-2x2:%s' % model, 'timeout_ms': 120000})
         out.append({'model': model, 'm': 2, 'n': 1, 'nx': 2, 'ny': 1, 'variant': 'kT', 'table': True, 'group': 'kT-per-point-table:%s' % model, 'timeout_ms': 120000})
         out.append({'model': model, 'm': 1, 'n': 2, 'nx': 1, 'ny': 2, 'variant': 'kT', 'group': 'kT-jacobian-1x2:%s' % model, 'timeout_ms': 120000})
+        out.append({'model': model, 'm': 2, 'n': 1, 'nx': 1, 'ny': 1, 'variant': 'kT', 'laminate_offset': True, 'group': 'kT-jacobian-offset-laminate:%s' % model, 'timeout_ms': 120000})
+        out.append({'model': model, 'm': 1, 'n': 2, 'nx': 1, 'ny': 1, 'variant': 'fint', 'laminate_offset': True, 'group': 'fint-gradient-offset-laminate:%s' % model})
         out.append({'model': model, 'm': 2, 'n': 1, 'nx': 2, 'ny': 1, 'variant': 'fint', 'group': 'fint-gradient-2x1:%s' % model})
         out.append({'model': model, 'm': 1, 'n': 2, 'nx': 1, 'ny': 2, 'variant': 'fint', 'table': True, 'group': 'fint-per-point-table:%s' % model})
         out.append({'model': model, 'm': 2, 'n': 2, 'nx': 2, 'ny': 2, 'variant': 'kT0', 'group': 'undeformed:%s' % model})
